@@ -90,6 +90,27 @@ CLAIMED = {
    text="Every output chain of AppendProjected/AppendUnprojected stays within the requested tolerance (33 fractions per segment), endpoints preserved, neighbours within half a period; Project/Unproject round trip; SubsampleVertices keeps endpoints, emits no duplicate neighbours, drops only vertices within tolerance; CellIDSnapper / IntLatLngSnapper land on a site of the declared grid within SnapRadius.",
    note="Reference error 2e-15 rad added to the implementation's side; Mercator edges within 0.05 degrees of a pole excluded (documented limitation).",
    design="DESIGN.md §6 C20"),
+
+ "C05": dict(level="exploration", engine="E3 enum",
+   technique="bounded-exhaustive enumeration: region catalogue x RegionCoverer option grid x the five covering methods, region predicates on cell lattices around every boundary, and every rectangle over a cell's characteristic latitude/longitude alphabet; membership oracle = the region's own ContainsPoint for simple regions and exact crossing parity for loops/polygons, strictly interior probes for the one-sided claims",
+   text="Every covering contains every contained probe, every interior-covering cell lies inside the region, MinLevel/MaxLevel/LevelMod are honoured, ContainsCell=true and IntersectsCell=false are one-sidedly safe, on every region x configuration of the grid.",
+   note="Probes accuse only when more than 1e-12 rad from a boundary; MaxCells is soft and not asserted; configurations that would need > 30,000 cells are skipped and counted.",
+   design="DESIGN.md §6 C05"),
+ "C10": dict(level="exploration", engine="E3 enum",
+   technique="bounded-exhaustive enumeration: region catalogue x probe sets (vertices with ulp neighbours, dense edge points, the 300-bit latitude extremum of every edge), all vertex pairs x third vertices of an adversarial alphabet for RectBounder, constructed containing pairs for ExpandForSubregions, all subsets of a point alphabet for the convex hull; exact containment and exact orientation signs as oracle",
+   text="RectBound / CapBound / CellUnionBound contain every contained probe with no slack on the rect bounds; RectBounder's closed-chain guarantee; ExpandForSubregions dominates the bound of every contained loop; hulls are convex by exact signs and contain or have as vertex every input point.",
+   note="Two ulp-level findings (unpadded cap-shaped bounds, D24/D25) are recorded as known findings; a missing constant is detectable, sufficiency of the constants is not (DESIGN L1).",
+   design="DESIGN.md §6 C10"),
+ "C16": dict(level="exploration", engine="E3 enum",
+   technique="bounded-exhaustive enumeration of crossing edge pairs built through common points at crossing angles pi/2..3e-16 and half-lengths 5e-324..pi/2, endpoint ulp neighbourhoods, exactly collinear overlaps and nearly antipodal endpoints, all 8 argument orders; oracle = the exact intersection (a0xa1)x(b0xb1) in big.Int with the error bound as an exact rational inequality; stage hooks for the stable and exact paths",
+   text="Intersection is unit length, within 8*2^-53 rad of the exact intersection, on the edges' side, and identical in all 8 orderings on every kept pair; the stable path only accepts results meeting the bound.",
+   note="Only pairs that the exact reference classifies as crossing are judged; one known finding (D29, collinear pairs with same-direction endpoints).",
+   design="DESIGN.md §6 C16"),
+ "C17": dict(level="exploration", engine="E3 enum",
+   technique="bounded-exhaustive enumeration of edges (lengths 0, 1 ulp, 1e-300..pi-1e-12) x query points on / beside / perpendicular to / antipodal to the edge incl. the ulp neighbourhoods of the interior/endpoint decision boundary, edge pairs, interpolation fractions, all short polylines over a point alphabet; oracle = exact dot/cross products with 320-bit sqrt/asin/atan2, compared with the library's own documented error functions",
+   text="UpdateMinDistance / DistanceFromSegment / IsDistanceLess / UpdateMinInteriorDistance stay within minUpdateDistanceMaxError of the exact distance, never exceed an endpoint distance by more, are zero at own endpoints and agree with their threshold forms; Project, Interpolate, DistanceFraction, EdgePairClosestPoints and the Polyline walk are mutually consistent within 1e-14 rad.",
+   note="Functions without a documented bound are held to 1e-14 rad (scaled by conditioning); nearly antipodal edges excluded as documented.",
+   design="DESIGN.md §6 C17"),
 }
 
 PLANNED = {  # not yet claimed: each gets a reason in not_applicable until its check is committed
